@@ -81,7 +81,7 @@ def cases(tier, seed, shard, nshards):
         n += 1
 
     rng = random.Random(f"{seed}:C26:{shard}")
-    nrand = (8000 if tier == "quick" else 400000) // nshards
+    nrand = (8000 if tier == "quick" else 120000) // nshards
     for _ in range(nrand):
         bits = rng.choice([rng.randint(0, 64), rng.randint(0, 600), rng.randint(0, 4096)])
         i = rng.getrandbits(bits) if bits else 0
